@@ -30,6 +30,8 @@ def queue_call(call: ast.Call) -> Optional[Tuple[str, str]]:
     timeout = kwarg(call, "timeout", pos + 1)
     if block is not None and const_value(block, None) is False:
         return m, "nonblocking"
+    if block is not None and not isinstance(block, ast.Constant) and timeout is None:
+        return m, "blocking?"          # get(<flag>): blocking or not is decided by a value this classification does not follow
     if timeout is not None:
         def may_be_none(e) -> bool:
             if isinstance(e, ast.Constant):
@@ -442,10 +444,23 @@ def _check_result_tuple(res, flow: Flow, work_get_pred, functor_pred) -> Tuple[b
             item = d.value
             # the unpacked item may be a local with several definitions, all of them reads of the work queue
             # (a priming read before the loop and the re-read at its end)
-            sources = [item]
-            if isinstance(item, ast.Name):
-                sources = [x.value for x in flow.defs_of(item)] or [item]
-            for it_ in sources:
+            def sources_of(x, depth=0):
+                """the expressions a name stands for, through plain copies (parameter bindings of an inlined helper) and through
+                `for x in iter(<queue>.get, None)` (one get per round)"""
+                if not isinstance(x, ast.Name) or depth > 4:
+                    return [x]
+                out = []
+                for dd in flow.defs_of(x):
+                    v_ = dd.value
+                    if dd.kind == "for" and isinstance(v_, ast.Call) and src(v_.func) == "iter" and len(v_.args) == 2 \
+                            and isinstance(v_.args[0], ast.Attribute) and v_.args[0].attr == "get" and const_value(v_.args[1], 0) is None:
+                        out.append(ast.copy_location(ast.Call(func=v_.args[0], args=[], keywords=[]), v_))
+                    elif dd.kind == "assign" and isinstance(v_, ast.Name):
+                        out += sources_of(v_, depth + 1)
+                    else:
+                        out.append(v_)
+                return out or [x]
+            for it_ in sources_of(item) if isinstance(item, ast.Name) else [item]:
                 if not (isinstance(it_, ast.Call) and work_get_pred(it_)):
                     return False
         return True
